@@ -88,9 +88,9 @@ var plans = map[string]plan{
 	},
 	"C10": {
 		Property: "C10", Level: "exploration",
-		Quick:    []phase{{Scen: "C10", Enum: true, Seeds: 8000, Batch: 250}},
-		Thorough: []phase{{Scen: "C10", Enum: true, Seeds: 600000, Batch: 2000}},
-		Rule:     "seeded: the real HTTP sender (CBOR Send, SendJson, announce.Send) announces 1..5 messages (CID v0/v1 over dag-pb/raw/dag-cbor/dag-json and sha2-256/512, blake2b, identity, truncated digests; 0..4 addresses; extra data on the message or configured on the sender up to 4 KiB; with/without original peer) to 1..3 announce endpoints that decode with the real codec, in a third of the runs through a reader returning 1..7 bytes per call; in half of the runs endpoints answer error statuses, reset, stall until the 10 s time-out, or the caller cancels. Every endpoint's decoded message must equal what was sent with /p2p/<publisher> appended to each address; Send's error must name exactly the failed URLs; no sender goroutine may outlive Send. Enumerated (bounded exhaustive): for 24 base messages every prefix (EOF after every length), every single bit flip and 10 hostile headers (lengths up to 2^64-1, 8192 absent addresses, a 2 GiB address) under a panic and allocation guard; a decoded altered message must survive re-encoding. Non-trivial when addresses were compared or a fault fired; distinct = distinct (fault set, canonical log hash)",
+		Quick:    []phase{{Scen: "C10", Enum: true, Seeds: 8000, Batch: 250}, {Scen: "C10P", Seeds: 2000, Batch: 100}},
+		Thorough: []phase{{Scen: "C10", Enum: true, Seeds: 600000, Batch: 2000}, {Scen: "C10P", Seeds: 200000, Batch: 500}},
+		Rule:     "seeded: the real HTTP sender (CBOR Send, SendJson, announce.Send) announces 1..5 messages (CID v0/v1 over dag-pb/raw/dag-cbor/dag-json and sha2-256/512, blake2b, identity, truncated digests; 0..4 addresses; extra data on the message or configured on the sender up to 4 KiB; with/without original peer) to 1..3 announce endpoints that decode with the real codec, in a third of the runs through a reader returning 1..7 bytes per call; in half of the runs endpoints answer error statuses, reset, stall until the 10 s time-out, or the caller cancels. Every endpoint's decoded message must equal what was sent with /p2p/<publisher> appended to each address; Send's error must name exactly the failed URLs; no sender goroutine may outlive Send. A second scenario (C10P) runs the real gossip sender (p2psender) on one libp2p mocknet host against a raw gossipsub subscription on another: 1..3 bursts of 1..6 Send calls back to back, then the multiset of decoded announcements must equal the multiset sent. Enumerated (bounded exhaustive): for 24 base messages every prefix (EOF after every length), every single bit flip and 10 hostile headers (lengths up to 2^64-1, 8192 absent addresses, a 2 GiB address) under a panic and allocation guard; a decoded altered message must survive re-encoding. Non-trivial when addresses were compared or a fault fired; distinct = distinct (fault set, canonical log hash)",
 		Real:     []string{"announce/message (CBOR codec, JSON, SetAddrs/GetAddrs)", "announce/httpsender", "announce.Send", "net/http client transport"},
 		Stubs:    []string{"announce endpoints (harness handler over the real decoder)", "TCP (net.Pipe)", "HTTP server loop", "wall clock", "gossip sender p2psender (absent)"},
 		Assume:   append([]string{"allocation is bounded by runtime.MemStats.TotalAlloc around one decode on one goroutine (heap bytes, not stack)"}, commonAssume...),
